@@ -14,25 +14,25 @@ import (
 
 // EField is the expectation for one field occurrence.
 type EField struct {
-	Proto   string `json:"proto"`   // proto field name
-	GoName  string `json:"go_name"` // Go struct field name
-	Attr    string `json:"attr"`    // expected attribute name
-	Path    string `json:"path"`    // Root.f1...fn
-	MsgKey  string `json:"msg_key"` // Msg.Field
-	Shape   string `json:"shape"`   // prim list map obj objlist objmap custom
-	PK      string `json:"pk"`      // i64 f64 str bool time dur (leaf or element kind), "" for objects
-	Scalar  string `json:"scalar"`  // int32 int64 uint32 uint64 float32 float64 bool string bytes enum time duration
-	Ptr     bool   `json:"ptr"`     // pointer-backed (nullable message / *time.Time / *time.Duration / []*M / map[string]*M)
-	Temporal bool  `json:"temporal"`
-	Msg     *EMsg  `json:"msg,omitempty"`
-	Oneof   string `json:"oneof,omitempty"` // Go name of the oneof holder
-	Via     []string `json:"via,omitempty"` // chain of pointer-embedded parents through which Go reaches the field
+	Proto                         string   `json:"proto"`   // proto field name
+	GoName                        string   `json:"go_name"` // Go struct field name
+	Attr                          string   `json:"attr"`    // expected attribute name
+	Path                          string   `json:"path"`    // Root.f1...fn
+	MsgKey                        string   `json:"msg_key"` // Msg.Field
+	Shape                         string   `json:"shape"`   // prim list map obj objlist objmap custom
+	PK                            string   `json:"pk"`      // i64 f64 str bool time dur (leaf or element kind), "" for objects
+	Scalar                        string   `json:"scalar"`  // int32 int64 uint32 uint64 float32 float64 bool string bytes enum time duration
+	Ptr                           bool     `json:"ptr"`     // pointer-backed (nullable message / *time.Time / *time.Duration / []*M / map[string]*M)
+	Temporal                      bool     `json:"temporal"`
+	Msg                           *EMsg    `json:"msg,omitempty"`
+	Oneof                         string   `json:"oneof,omitempty"` // Go name of the oneof holder
+	Via                           []string `json:"via,omitempty"`   // chain of pointer-embedded parents through which Go reaches the field
 	Required, Computed, Sensitive bool
-	Validators    []string `json:"validators"`
-	PlanModifiers []string `json:"plan_modifiers"`
-	Desc          string   `json:"desc"`
-	Suffix        string   `json:"suffix,omitempty"`
-	Placeholder   bool     `json:"placeholder,omitempty"`
+	Validators                    []string `json:"validators"`
+	PlanModifiers                 []string `json:"plan_modifiers"`
+	Desc                          string   `json:"desc"`
+	Suffix                        string   `json:"suffix,omitempty"`
+	Placeholder                   bool     `json:"placeholder,omitempty"`
 }
 
 // EMsg is the expectation for one message occurrence.
